@@ -1,1 +1,1072 @@
-(* placeholder: to be written *)
+(** Invariants and characterisations of the proxy-DEX model (property C16).
+    [Backed]: every outstanding wrapped LP / wrapped farm position is covered, all positions at
+    once, by what the proxy holds; preserved by every operation whose nested responses obey the
+    interface laws ([x_law]).  Characterisations of remove / exit / add / enter (what comes back,
+    what is minted and burned, the energy entry written) and of the pro-rata parts. *)
+From MX Require Import Base.Prelude Gen.Params Model.ProxyDex.
+
+(** ---------------------------------------------------------------- lists *)
+Fixpoint sumf {A} (g : A -> Z) (l : list A) : Z :=
+  match l with [] => 0 | x :: t => g x + sumf g t end.
+
+Lemma sumf_app {A} (g : A -> Z) l1 l2 : sumf g (l1 ++ l2) = sumf g l1 + sumf g l2.
+Proof. induction l1; simpl; lia. Qed.
+
+Lemma sumf_setnth {A} (g : A -> Z) l i x y :
+  nth_error l i = Some x -> sumf g (setnth l i y) = sumf g l - g x + g y.
+Proof.
+  revert i. induction l as [|h t IH]; intros [|i] H; simpl in *; try discriminate.
+  - inversion H; subst. lia.
+  - rewrite (IH _ H). lia.
+Qed.
+
+Lemma getn_some {A} (l : list A) n x : getn l n = Some x -> 0 < n /\ nth_error l (Z.to_nat (n - 1)) = Some x.
+Proof. unfold getn. destruct (n <=? 0) eqn:E; [discriminate|]. apply Z.leb_gt in E. auto. Qed.
+
+Lemma sumf_setn {A} (g : A -> Z) l n x y :
+  getn l n = Some x -> sumf g (setn l n y) = sumf g l - g x + g y.
+Proof. intros H. apply getn_some in H. destruct H. unfold setn. apply sumf_setnth; assumption. Qed.
+
+Lemma nth_error_setnth_same {A} (l : list A) i x y :
+  nth_error l i = Some x -> nth_error (setnth l i y) i = Some y.
+Proof. revert i. induction l; intros [|i] H; simpl in *; try discriminate; auto. Qed.
+
+Lemma nth_error_setnth_other {A} (l : list A) i j y :
+  i <> j -> nth_error (setnth l i y) j = nth_error l j.
+Proof.
+  revert i j. induction l; intros [|i] [|j] H; simpl; auto; try congruence.
+Qed.
+
+Lemma getn_setn_same {A} (l : list A) n x y : getn l n = Some x -> getn (setn l n y) n = Some y.
+Proof.
+  intros H. pose proof (getn_some _ _ _ H) as [Hn Hx]. unfold getn, setn.
+  destruct (n <=? 0) eqn:E; [apply Z.leb_le in E; lia|]. eapply nth_error_setnth_same; eauto.
+Qed.
+
+Lemma getn_setn_other {A} (l : list A) n n2 y : n <> n2 -> 0 < n -> getn (setn l n y) n2 = getn l n2.
+Proof.
+  intros Hne Hn. unfold getn, setn. destruct (n2 <=? 0) eqn:E; [reflexivity|]. apply Z.leb_gt in E.
+  apply nth_error_setnth_other. intros Heq. apply Hne.
+  assert (Z.of_nat (Z.to_nat (n - 1)) = Z.of_nat (Z.to_nat (n2 - 1))) by congruence.
+  rewrite !Z2Nat.id in H by lia. lia.
+Qed.
+
+Lemma getn_app_old {A} (l : list A) x n v : getn l n = Some v -> getn (l ++ [x]) n = Some v.
+Proof.
+  unfold getn. destruct (n <=? 0); [discriminate|]. intros H. rewrite nth_error_app1; auto.
+  apply nth_error_Some. congruence.
+Qed.
+
+Lemma getn_app_new {A} (l : list A) x : getn (l ++ [x]) (next_nonce l) = Some x.
+Proof.
+  unfold getn, next_nonce. destruct (Z.of_nat (length l) + 1 <=? 0) eqn:E; [apply Z.leb_le in E; lia|].
+  replace (Z.to_nat (Z.of_nat (length l) + 1 - 1)) with (length l) by lia.
+  rewrite nth_error_app2 by lia. rewrite Nat.sub_diag. reflexivity.
+Qed.
+
+Lemma getn_app_none {A} (l : list A) x n : getn l n = None -> n <> next_nonce l -> getn (l ++ [x]) n = None.
+Proof.
+  unfold getn, next_nonce. destruct (n <=? 0) eqn:E; [reflexivity|]. apply Z.leb_gt in E. intros H Hne.
+  apply nth_error_None in H. apply nth_error_None. rewrite app_length. simpl. lia.
+Qed.
+
+Lemma Forall_setnth {A} (P : A -> Prop) l i y : Forall P l -> P y -> Forall P (setnth l i y).
+Proof.
+  revert i. induction l; intros [|i] Hl Hy; simpl; auto; inversion Hl; subst; constructor; auto.
+Qed.
+
+Lemma Forall_getn {A} (P : A -> Prop) l n x : Forall P l -> getn l n = Some x -> P x.
+Proof.
+  intros Hl H. apply getn_some in H. destruct H as [_ H]. apply nth_error_In in H.
+  rewrite Forall_forall in Hl. auto.
+Qed.
+
+(** ---------------------------------------------------------------- rule of three *)
+Lemma rule3_ok T a full r : rule3 T a full = Ok r ->
+  0 < r /\ ((a = T /\ r = full) \/ (a <> T /\ T <> 0 /\ r = full * a / T)).
+Proof.
+  unfold rule3. intros H. apply bind_ok in H. destruct H as (x & Hx & H).
+  destruct (0 <? x) eqn:E; [|discriminate]. inversion H; subst. apply Z.ltb_lt in E. split; [exact E|].
+  destruct (a =? T) eqn:Ea.
+  - apply Z.eqb_eq in Ea. inversion Hx; subst. auto.
+  - apply Z.eqb_neq in Ea. apply div_chk_ok in Hx. destruct Hx. auto.
+Qed.
+
+(** the part is the floor of the pro-rata share in every case *)
+Lemma rule3_floor T a full r : rule3 T a full = Ok r -> 0 < T -> r = full * a / T.
+Proof.
+  intros H HT. apply rule3_ok in H. destruct H as [_ [[-> ->]|(_ & _ & ->)]]; [|reflexivity].
+  rewrite Z.div_mul; lia.
+Qed.
+
+Lemma rule3_pos T a full r : rule3 T a full = Ok r -> 0 < T -> 0 <= full -> 0 < r /\ 0 < a /\ r * T <= full * a.
+Proof.
+  intros H HT Hf. pose proof (rule3_floor _ _ _ _ H HT) as Hr. apply rule3_ok in H. destruct H as [Hp _].
+  split; [exact Hp|]. subst r. pose proof (div_lo (full * a) T HT). split; [|lia].
+  destruct (Z_lt_le_dec 0 a); [assumption|].
+  assert (full * a <= 0) by nia. assert (full * a / T <= 0) by (apply Z.div_le_upper_bound; lia). lia.
+Qed.
+
+Lemma rule3_same T a r : rule3 T a T = Ok r -> 0 < T -> r = a.
+Proof. intros H HT. rewrite (rule3_floor _ _ _ _ H HT). rewrite Z.mul_comm. apply Z.div_mul. lia. Qed.
+
+(** floor is superadditive: what is released with [a] units leaves enough for the rest *)
+Lemma floor_release L live a T : 0 < T -> 0 <= L -> 0 <= a <= live ->
+  L * (live - a) / T + L * a / T <= L * live / T.
+Proof.
+  intros HT HL Ha.
+  pose proof (div_lo (L * (live - a)) T HT). pose proof (div_lo (L * a) T HT). pose proof (div_hi (L * live) T HT).
+  set (x := L * (live - a) / T) in *. set (y := L * a / T) in *. set (z := L * live / T) in *.
+  clearbody x y z. nia.
+Qed.
+(** ---------------------------------------------------------------- the backing invariant *)
+Definition wl_need (k : Z) (w : wlp) : Z := if wl_k w =? k then wl_L w * wl_live w / wl_T w else 0.
+Definition wf_need_locked (k : Z) (w : wfm) : Z := if (wf_kind w =? 0) && (wf_pn w =? k) then wf_sup w else 0.
+Definition wf_need_wlp (n : Z) (w : wfm) : Z := if negb (wf_kind w =? 0) && (wf_pn w =? n) then wf_sup w else 0.
+Definition wf_need_farm (key : Z) (w : wfm) : Z := if fkey (wf_f w) (wf_farm w) =? key then wf_sup w else 0.
+Definition dead_in (l : list wlp) (n : Z) : Z := match getn l n with Some w => wl_dead w | None => 0 end.
+Notation dead_of s n := (dead_in (s_wlp s) n).
+
+Definition wlp_wf (w : wlp) : Prop := 0 < wl_T w /\ 0 <= wl_L w /\ 0 <= wl_live w /\ 0 <= wl_dead w.
+Definition wfm_wf (w : wfm) : Prop := 0 < wf_T w /\ wf_P w = wf_T w /\ 0 <= wf_sup w.
+
+Record Backed (s : state) : Prop := mkBacked {
+  bk_lp : asum (s_hlp s) <= s_lp s;
+  bk_farm : forall key, sumf (wf_need_farm key) (s_wfm s) <= aget (s_farm s) key;
+  bk_esc : forall n, dead_of s n + sumf (wf_need_wlp n) (s_wfm s) <= aget (s_pwlp s) n;
+  bk_locked : forall k, sumf (wl_need k) (s_wlp s) + sumf (wf_need_locked k) (s_wfm s) <= aget (s_locked s) k;
+  bk_wlp : Forall wlp_wf (s_wlp s);
+  bk_wfm : Forall wfm_wf (s_wfm s);
+  bk_nd : NoDup (akeys (s_hlp s))
+}.
+
+Lemma dead_in_nil n : dead_in [] n = 0.
+Proof.
+  unfold dead_in, getn. destruct (n <=? 0); [reflexivity|]. destruct (Z.to_nat (n - 1)); reflexivity.
+Qed.
+
+Lemma backed_init : Backed init_state.
+Proof.
+  constructor; simpl; intros; try lia; try (constructor; fail).
+  rewrite dead_in_nil. lia.
+Qed.
+
+Lemma dead_in_setn l n w y n2 : getn l n = Some w -> wl_dead y = wl_dead w -> dead_in (setn l n y) n2 = dead_in l n2.
+Proof.
+  intros Hw Hd. unfold dead_in. destruct (Z.eq_dec n n2) as [->|Hne].
+  - rewrite (getn_setn_same _ _ _ _ Hw). rewrite Hw. assumption.
+  - rewrite getn_setn_other; auto. apply getn_some in Hw. lia.
+Qed.
+
+Lemma dead_in_app l x n : wl_dead x = 0 -> dead_in (l ++ [x]) n = dead_in l n.
+Proof.
+  intros Hx. unfold dead_in. destruct (getn l n) eqn:E.
+  - rewrite (getn_app_old _ _ _ _ E). reflexivity.
+  - destruct (Z.eq_dec n (next_nonce l)) as [->|Hne].
+    + rewrite getn_app_new. assumption.
+    + rewrite getn_app_none; auto.
+Qed.
+
+Lemma bal_sub_ok l k a l' : bal_sub l k a = Ok l' -> a <= aget l k /\ l' = aset l k (aget l k - a).
+Proof. unfold bal_sub. intros H. apply bind_ok in H. destruct H as (v & Hv & H). apply sub_chk_ok in Hv. inversion H; subst. destruct Hv as [? ->]. auto. Qed.
+
+Lemma aget_bal_add l k a k2 : aget (bal_add l k a) k2 = if k =? k2 then aget l k + a else aget l k2.
+Proof.
+  unfold bal_add. destruct (k =? k2) eqn:E.
+  - apply Z.eqb_eq in E. subst. apply aget_aset_same.
+  - apply Z.eqb_neq in E. apply aget_aset_other. assumption.
+Qed.
+
+Lemma aget_aset l k v k2 : aget (aset l k v) k2 = if k =? k2 then v else aget l k2.
+Proof.
+  destruct (k =? k2) eqn:E.
+  - apply Z.eqb_eq in E. subst. apply aget_aset_same.
+  - apply Z.eqb_neq in E. apply aget_aset_other. assumption.
+Qed.
+
+(** ---- release_wlp *)
+Lemma release_wlp_spec s n a s' k lp : release_wlp s n a = Ok (s', (k, lp)) -> Backed s ->
+  Backed s' /\ 0 < a /\ 0 < lp /\ s_lp s' = s_lp s /\ s_hlp s' = s_hlp s /\ s_hfm s' = s_hfm s /\
+  s_wfm s' = s_wfm s /\ s_farm s' = s_farm s /\ s_pwlp s' = s_pwlp s /\
+  (forall n2, dead_of s' n2 = dead_of s n2) /\
+  exists w, getn (s_wlp s) n = Some w /\ k = wl_k w /\ part_wlp w a = Ok lp /\
+            getn (s_wlp s') n = Some (mkWlp (wl_T w) (wl_k w) (wl_L w) (wl_live w - a) (wl_dead w)).
+Proof.
+  unfold release_wlp. intros H Hb. destruct (getn (s_wlp s) n) as [w|] eqn:Hw; [|discriminate].
+  destruct (0 <? a) eqn:Ea; [|discriminate]. apply Z.ltb_lt in Ea.
+  apply bind_ok in H. destruct H as (lp0 & Hlp & H).
+  apply bind_ok in H. destruct H as (live & Hlive & H). apply sub_chk_ok in Hlive. destruct Hlive as [Hle ->].
+  apply bind_ok in H. destruct H as (s2 & Hs2 & H). inversion H; subst s' k lp0. clear H.
+  unfold locked_out in Hs2. apply bind_ok in Hs2. destruct Hs2 as (l & Hl & Hs2). inversion Hs2; subst s2. clear Hs2.
+  apply bal_sub_ok in Hl. destruct Hl as [Hge ->]. simpl in *.
+  destruct Hb as [B1 B2 B3 B4 B5 B6 B7].
+  pose proof (Forall_getn _ _ _ _ B5 Hw) as (HT & HL & Hlv & Hdd).
+  unfold part_wlp in Hlp. pose proof (rule3_pos _ _ _ _ Hlp HT HL) as (Hlp0 & _ & _).
+  pose proof (rule3_floor _ _ _ _ Hlp HT) as Hfl.
+  split; [|repeat split; auto; try (intros; apply (dead_in_setn _ _ _ _ _ Hw); reflexivity);
+           try (exists w; repeat split; auto; eapply getn_setn_same; eauto)].
+  constructor; simpl; auto.
+  - intros n2. rewrite (dead_in_setn _ _ _ _ _ Hw) by reflexivity. apply B3.
+  - intros k0. rewrite (sumf_setn _ _ _ _ _ Hw). rewrite aget_aset. specialize (B4 k0).
+    unfold wl_need at 2 3. simpl. destruct (wl_k w =? k0) eqn:Ek.
+    + pose proof (floor_release (wl_L w) (wl_live w) a (wl_T w) HT HL ltac:(lia)). rewrite <- Hfl in H. apply Z.eqb_eq in Ek. subst k0. lia.
+    + lia.
+  - apply Forall_setnth; auto. unfold wlp_wf. simpl. repeat split; auto; lia.
+Qed.
+
+(** ---- moving wrapped LP tokens and LP tokens in and out of users' hands *)
+Lemma backed_hlp_lp s key v lp' : Backed s ->
+  asum (s_hlp s) - aget (s_hlp s) key + v <= lp' ->
+  Backed (upd_lp (upd_hlp s (aset (s_hlp s) key v)) lp').
+Proof.
+  intros [B1 B2 B3 B4 B5 B6 B7] H. constructor; simpl; auto.
+  - rewrite asum_aset by assumption. exact H.
+  - apply nodup_aset. assumption.
+Qed.
+
+Lemma backed_lp_add s d : Backed s -> 0 <= d -> Backed (upd_lp s (s_lp s + d)).
+Proof. intros [B1 B2 B3 B4 B5 B6 B7] H. constructor; simpl; auto. lia. Qed.
+
+Lemma backed_locked_in s k a : Backed s -> 0 <= a -> Backed (locked_in s k a).
+Proof.
+  intros [B1 B2 B3 B4 B5 B6 B7] H. constructor; simpl; auto.
+  intros k0. rewrite aget_bal_add. specialize (B4 k0). destruct (k =? k0) eqn:E; [apply Z.eqb_eq in E; subst|]; lia.
+Qed.
+
+Lemma backed_hlp_xfer s key v : Backed s -> v <= aget (s_hlp s) key -> Backed (upd_hlp s (aset (s_hlp s) key v)).
+Proof.
+  intros [B1 B2 B3 B4 B5 B6 B7] H. constructor; simpl; auto.
+  - rewrite asum_aset by assumption. lia.
+  - apply nodup_aset. assumption.
+Qed.
+
+Lemma backed_hlp_xfer_up s key d : Backed s -> asum (s_hlp s) + d <= s_lp s ->
+  Backed (upd_hlp s (aset (s_hlp s) key (aget (s_hlp s) key + d))).
+Proof.
+  intros [B1 B2 B3 B4 B5 B6 B7] H. constructor; simpl; auto.
+  - rewrite asum_aset by assumption. lia.
+  - apply nodup_aset. assumption.
+Qed.
+
+Lemma take_wlp_user_spec s u n a s' k lp : take_wlp_user s u n a = Ok (s', (k, lp)) -> Backed s ->
+  Backed s' /\ 0 < a /\ 0 < lp /\ s_wfm s' = s_wfm s /\
+  exists w, getn (s_wlp s) n = Some w /\ k = wl_k w /\ part_wlp w a = Ok lp.
+Proof.
+  unfold take_wlp_user. intros H Hb.
+  apply bind_ok in H. destruct H as (h & Hh & H). apply bal_sub_ok in Hh. destruct Hh as [Hge ->].
+  apply bind_ok in H. destruct H as (lp0 & Hl & H). apply sub_chk_ok in Hl. destruct Hl as [Hle ->].
+  assert (Hb0 : Backed (upd_lp (upd_hlp s (aset (s_hlp s) (hkey n u) (aget (s_hlp s) (hkey n u) - a))) (s_lp s - a))).
+  { apply backed_hlp_lp; auto. destruct Hb. lia. }
+  destruct (release_wlp_spec _ _ _ _ _ _ H Hb0) as (Hb' & Ha & Hlp & _ & _ & _ & Hwf & _ & _ & _ & w & Hw & Hk & Hp & _).
+  split; [exact Hb'|]. split; [exact Ha|]. split; [exact Hlp|]. split; [exact Hwf|]. exists w. auto.
+Qed.
+
+(** ---- kill_wlp *)
+Lemma kill_wlp_spec s n a s' k lp : kill_wlp s n a = Ok (s', (k, lp)) -> Backed s ->
+  Backed s' /\ 0 < a /\ 0 < lp /\ s_lp s' = s_lp s /\ s_hlp s' = s_hlp s /\
+  exists w, getn (s_wlp s) n = Some w /\ k = wl_k w /\ part_wlp w a = Ok lp.
+Proof.
+  unfold kill_wlp. intros H Hb. apply bind_ok in H. destruct H as ([s1 [k1 l1]] & Hr & H).
+  destruct (release_wlp_spec _ _ _ _ _ _ Hr Hb) as (Hb1 & Ha & Hlp & E1 & E2 & E3 & E4 & E5 & E6 & Hd & w & Hw & Hk & Hp & Hw1).
+  rewrite Hw1 in H. inversion H; subst s' k lp. clear H.
+  split; [|repeat split; auto; exists w; auto].
+  destruct Hb1 as [B1 B2 B3 B4 B5 B6 B7]. constructor; simpl; auto.
+  - intros n2. rewrite aget_bal_add. specialize (B3 n2). unfold dead_in in *.
+    destruct (Z.eq_dec n n2) as [->|Hne].
+    + rewrite (getn_setn_same _ _ _ _ Hw1). rewrite Hw1 in B3. simpl in *. rewrite Z.eqb_refl. lia.
+    + rewrite getn_setn_other by (auto; apply getn_some in Hw1; lia).
+      destruct (n =? n2) eqn:E; [apply Z.eqb_eq in E; contradiction|]. exact B3.
+  - intros k0. rewrite (sumf_setn _ _ _ _ _ Hw1). specialize (B4 k0). unfold wl_need at 2 3. simpl. lia.
+  - apply Forall_setnth; auto. pose proof (Forall_getn _ _ _ _ B5 Hw1) as (? & ? & ? & ?). unfold wlp_wf in *. simpl in *.
+    repeat split; auto; lia.
+Qed.
+
+(** ---- mint_wlp *)
+Lemma mint_wlp_spec s T k L s' n : mint_wlp s T k L = (s', n) -> Backed s -> 0 < T -> 0 <= L ->
+  Backed s' /\ n = next_nonce (s_wlp s) /\ s_lp s' = s_lp s /\ s_hlp s' = s_hlp s /\
+  getn (s_wlp s') n = Some (mkWlp T k L T 0).
+Proof.
+  unfold mint_wlp. intros H [B1 B2 B3 B4 B5 B6 B7] HT HL. inversion H; subst s' n. clear H.
+  split; [|repeat split; auto; simpl; apply getn_app_new].
+  constructor; simpl; auto.
+  - intros n2. rewrite dead_in_app by reflexivity. apply B3.
+  - intros k0. rewrite sumf_app. simpl. rewrite aget_bal_add. specialize (B4 k0). unfold wl_need at 2. simpl.
+    rewrite Z.div_mul by lia. destruct (k =? k0) eqn:E.
+    + apply Z.eqb_eq in E. subst. lia.
+    + lia.
+  - apply Forall_app. split; auto. constructor; [|constructor]. unfold wlp_wf. simpl. repeat split; lia.
+Qed.
+
+Lemma mint_wlp_user_spec s u T k L s' n : mint_wlp_user s u T k L = (s', n) -> Backed s -> 0 < T -> 0 <= L ->
+  Backed s' /\ n = next_nonce (s_wlp s) /\ getn (s_wlp s') n = Some (mkWlp T k L T 0).
+Proof.
+  unfold mint_wlp_user. intros H Hb HT HL. destruct (mint_wlp s T k L) as [s1 n1] eqn:Hm.
+  destruct (mint_wlp_spec _ _ _ _ _ _ Hm Hb HT HL) as (Hb1 & Hn & E1 & E2 & Hg). inversion H. subst. clear H.
+  split; [|split; [reflexivity | exact Hg]].
+  unfold bal_add. apply backed_hlp_lp; auto. destruct Hb1. lia.
+Qed.
+
+(** ---- take_wfm / mint_wfm *)
+Lemma take_wfm_spec s u m a s' w pp : take_wfm s u m a = Ok (s', (w, pp)) -> Backed s ->
+  Backed s' /\ 0 < a /\ pp = a /\ getn (s_wfm s) m = Some w /\ wfm_wf w /\ s_lp s' = s_lp s /\ s_hlp s' = s_hlp s /\
+  s_wlp s' = s_wlp s.
+Proof.
+  unfold take_wfm. intros H Hb. destruct (getn (s_wfm s) m) as [w0|] eqn:Hw; [|discriminate].
+  destruct (0 <? a) eqn:Ea; [|discriminate]. apply Z.ltb_lt in Ea.
+  apply bind_ok in H. destruct H as (h & Hh & H). apply bal_sub_ok in Hh. destruct Hh as [Hhge ->].
+  apply bind_ok in H. destruct H as (pp0 & Hpp & H).
+  apply bind_ok in H. destruct H as (sup & Hsup & H). apply sub_chk_ok in Hsup. destruct Hsup as [Hsle ->].
+  apply bind_ok in H. destruct H as (fb & Hfb & H). apply bal_sub_ok in Hfb. destruct Hfb as [Hfge ->].
+  apply bind_ok in H. destruct H as (s2 & Hs2 & H). inversion H. subst s2 w0 pp0. clear H.
+  destruct Hb as [B1 B2 B3 B4 B5 B6 B7].
+  pose proof (Forall_getn _ _ _ _ B6 Hw) as Hwf. destruct Hwf as (HT & HP & Hs0).
+  unfold part_wfm in Hpp. rewrite HP in Hpp. apply rule3_same in Hpp; [|assumption]. subst pp.
+  set (w' := mkWfm (wf_farm w) (wf_f w) (wf_T w) (wf_kind w) (wf_pn w) (wf_P w) (wf_sup w - a)) in *.
+  assert (Hwf' : Forall wfm_wf (setn (s_wfm s) m w')).
+  { apply Forall_setnth; auto. unfold wfm_wf, w'. simpl. repeat split; auto. lia. }
+  destruct (wf_kind w =? 0) eqn:Ek.
+  - unfold locked_out in Hs2. apply bind_ok in Hs2. destruct Hs2 as (l & Hl & Hs2). inversion Hs2. subst s'. clear Hs2.
+    apply bal_sub_ok in Hl. destruct Hl as [Hlge ->]. simpl in *.
+    split; [|repeat split; auto].
+    constructor; simpl; auto.
+    + intros key. rewrite (sumf_setn _ _ _ _ _ Hw). rewrite aget_aset. specialize (B2 key).
+      unfold wf_need_farm at 2 3. unfold w'. simpl. destruct (fkey (wf_f w) (wf_farm w) =? key) eqn:E.
+      * apply Z.eqb_eq in E. subst key. lia.
+      * lia.
+    + intros n. rewrite (sumf_setn _ _ _ _ _ Hw). specialize (B3 n). unfold wf_need_wlp at 2 3. unfold w'. simpl.
+      rewrite Ek. simpl. lia.
+    + intros k. rewrite (sumf_setn _ _ _ _ _ Hw). rewrite aget_aset. specialize (B4 k).
+      unfold wf_need_locked at 2 3. unfold w'. simpl. rewrite Ek. simpl. destruct (wf_pn w =? k) eqn:E.
+      * apply Z.eqb_eq in E. subst k. lia.
+      * lia.
+  - apply bind_ok in Hs2. destruct Hs2 as (l & Hl & Hs2). inversion Hs2. subst s'. clear Hs2.
+    apply bal_sub_ok in Hl. destruct Hl as [Hlge ->]. simpl in *.
+    split; [|repeat split; auto].
+    constructor; simpl; auto.
+    + intros key. rewrite (sumf_setn _ _ _ _ _ Hw). rewrite aget_aset. specialize (B2 key).
+      unfold wf_need_farm at 2 3. unfold w'. simpl. destruct (fkey (wf_f w) (wf_farm w) =? key) eqn:E.
+      * apply Z.eqb_eq in E. subst key. lia.
+      * lia.
+    + intros n. rewrite (sumf_setn _ _ _ _ _ Hw). rewrite aget_aset. specialize (B3 n). unfold wf_need_wlp at 2 3. unfold w'. simpl.
+      rewrite Ek. simpl. destruct (wf_pn w =? n) eqn:E.
+      * apply Z.eqb_eq in E. subst n. lia.
+      * lia.
+    + intros k. rewrite (sumf_setn _ _ _ _ _ Hw). specialize (B4 k).
+      unfold wf_need_locked at 2 3. unfold w'. simpl. rewrite Ek. simpl. lia.
+Qed.
+
+Lemma mint_wfm_spec s u farm f T kind pn P s' m : mint_wfm s u farm f T kind pn P = (s', m) -> Backed s ->
+  0 < T -> P = T ->
+  Backed s' /\ m = next_nonce (s_wfm s) /\ getn (s_wfm s') m = Some (mkWfm farm f T kind pn P T).
+Proof.
+  unfold mint_wfm. intros H [B1 B2 B3 B4 B5 B6 B7] HT HP. subst P.
+  assert (Hwf : Forall wfm_wf (s_wfm s ++ [mkWfm farm f T kind pn T T])).
+  { apply Forall_app. split; auto. constructor; [|constructor]. unfold wfm_wf. simpl. repeat split; lia. }
+  destruct (kind =? 0) eqn:Ek; inversion H; subst s' m; clear H;
+    (split; [|split; [reflexivity | simpl; apply getn_app_new]]); constructor; simpl; auto.
+  - intros key. rewrite sumf_app. simpl. rewrite aget_bal_add. specialize (B2 key). unfold wf_need_farm at 2. simpl.
+    destruct (fkey f farm =? key) eqn:E; [apply Z.eqb_eq in E; subst key|]; lia.
+  - intros n. rewrite sumf_app. simpl. specialize (B3 n). unfold wf_need_wlp at 2. simpl. rewrite Ek. simpl. lia.
+  - intros k. rewrite sumf_app. simpl. rewrite aget_bal_add. specialize (B4 k). unfold wf_need_locked at 2. simpl. rewrite Ek. simpl.
+    destruct (pn =? k) eqn:E; [apply Z.eqb_eq in E; subst k|]; lia.
+  - intros key. rewrite sumf_app. simpl. rewrite aget_bal_add. specialize (B2 key). unfold wf_need_farm at 2. simpl.
+    destruct (fkey f farm =? key) eqn:E; [apply Z.eqb_eq in E; subst key|]; lia.
+  - intros n. rewrite sumf_app. simpl. rewrite aget_bal_add. specialize (B3 n). unfold wf_need_wlp at 2. simpl. rewrite Ek. simpl.
+    destruct (pn =? n) eqn:E; [apply Z.eqb_eq in E; subst n|]; lia.
+  - intros k. rewrite sumf_app. simpl. specialize (B4 k). unfold wf_need_locked at 2. simpl. rewrite Ek. simpl. lia.
+Qed.
+
+Ltac splits := repeat match goal with |- _ /\ _ => split end.
+
+(** ---- lists of payments *)
+Lemma take_wlp_list_spec ps : forall s u s' ta tl, take_wlp_list s u ps = Ok (s', (ta, tl)) -> Backed s ->
+  Backed s' /\ 0 <= ta /\ 0 <= tl /\ (ps <> [] -> 0 < ta) /\ ta = sum_amt ps /\ s_wfm s' = s_wfm s.
+Proof.
+  induction ps as [|p t IH]; intros s u s' ta tl H Hb; simpl in H.
+  - inversion H; subst. splits; auto; try lia. intros Hc; exfalso; apply Hc; reflexivity.
+  - destruct (p_tok p =? TK_WLP); [|discriminate].
+    apply bind_ok in H. destruct H as ([s1 [k1 lp]] & Hr & H).
+    apply bind_ok in H. destruct H as ([s2 [ta2 tl2]] & Hr2 & H). inversion H; subst s' ta tl. clear H.
+    destruct (take_wlp_user_spec _ _ _ _ _ _ _ Hr Hb) as (Hb1 & Ha & Hlp & Hwf & _).
+    destruct (IH _ _ _ _ _ Hr2 Hb1) as (Hb2 & Hta & Htl & _ & Hsum & Hwf2).
+    splits; auto; try lia. simpl. lia. congruence.
+Qed.
+
+Definition item_ok (it : item) : Prop := let '(_, a, _, _, pp) := it in pp = a /\ 0 < a.
+
+Lemma take_wfm_list_spec ps : forall s u s' its, take_wfm_list s u ps = Ok (s', its) -> Backed s ->
+  Backed s' /\ Forall item_ok its /\ length its = length ps /\ s_lp s' = s_lp s /\ s_hlp s' = s_hlp s.
+Proof.
+  induction ps as [|p t IH]; intros s u s' its H Hb; simpl in H.
+  - inversion H; subst. splits; auto.
+  - destruct (p_tok p =? TK_WFM); [|discriminate].
+    apply bind_ok in H. destruct H as ([s1 [w pp]] & Hr & H).
+    apply bind_ok in H. destruct H as ([s2 its2] & Hr2 & H). inversion H; subst s' its. clear H.
+    destruct (take_wfm_spec _ _ _ _ _ _ _ Hr Hb) as (Hb1 & Ha & Hpp & _ & _ & E1 & E2 & _).
+    destruct (IH _ _ _ _ Hr2 Hb1) as (Hb2 & Hok & Hlen & E3 & E4).
+    splits; auto; try congruence.
+    + constructor; auto. unfold item_ok, mk_item. auto.
+    + simpl. lia.
+Qed.
+
+Lemma kill_items_spec its : forall s s' tw tl, kill_items s its = Ok (s', (tw, tl)) -> Backed s ->
+  Backed s' /\ tw = items_pp_total its /\ 0 <= tl /\ 0 <= tw /\ (its <> [] -> 0 < tw) /\
+  s_lp s' = s_lp s /\ s_hlp s' = s_hlp s.
+Proof.
+  induction its as [|it t IH]; intros s s' tw tl H Hb; simpl in H.
+  - inversion H; subst. splits; auto; try lia. intros Hc; exfalso; apply Hc; reflexivity.
+  - destruct it as [[[[fa a] ki] pn] pp].
+    apply bind_ok in H. destruct H as ([s1 [k1 lq]] & Hr & H).
+    apply bind_ok in H. destruct H as ([s2 [ta2 tl2]] & Hr2 & H). inversion H; subst s' tw tl. clear H.
+    destruct (kill_wlp_spec _ _ _ _ _ _ Hr Hb) as (Hb1 & Ha & Hlp & E1 & E2 & _).
+    destruct (IH _ _ _ _ Hr2 Hb1) as (Hb2 & Htw & Htl & Htw0 & _ & E3 & E4).
+    splits; auto; try lia; try congruence. simpl. lia.
+Qed.
+
+Lemma items_totals its : Forall item_ok its -> items_pp_total its = items_farm_total its /\ 0 <= items_farm_total its /\
+  (its <> [] -> 0 < items_farm_total its).
+Proof.
+  induction 1 as [|it t Hi Ht IH]; simpl.
+  - splits; try lia. intros Hc; exfalso; apply Hc; reflexivity.
+  - destruct it as [[[[fa a] ki] pn] pp]. simpl in Hi. destruct Hi as [-> Ha]. destruct IH as (E & H0 & _).
+    splits; try lia.
+Qed.
+
+Lemma merge_items_spec s u farm its e s' m amt law : merge_items s u farm its e = Ok (s', (m, amt, law)) ->
+  law = true -> Backed s -> Forall item_ok its -> Backed s'.
+Proof.
+  unfold merge_items. intros H Hlaw Hb Hok. destruct its as [|it t]; [discriminate|].
+  destruct it as [[[[fa a] kind] pn] pp]. cbv beta iota in H.
+  match type of H with context [items_same ?x ?y ?z] => destruct (items_same x y z); [|discriminate] end.
+  destruct (fa =? farm); [|discriminate]. destruct (v_ok e); [|discriminate].
+  destruct (v_fact e) as [kf lf]. destruct (v_fmerge e) as [f' F'].
+  pose proof (items_totals _ Hok) as (Etot & Hnn & Hpos). specialize (Hpos ltac:(congruence)).
+  destruct (kind =? 0).
+  - destruct (mint_wfm s u farm f' F' 0 kf lf) as [s1 m1] eqn:Hm. injection H as Es Em Ea El. rewrite Hlaw in El. subst s'.
+    apply andb_prop in El. destruct El as [E1 E2]. apply Z.eqb_eq in E1. apply Z.eqb_eq in E2.
+    cbn [items_pp_total items_farm_total] in *.
+    refine (proj1 (mint_wfm_spec _ _ _ _ _ _ _ _ _ _ Hm Hb _ _)); lia.
+  - apply bind_ok in H. destruct H as ([s1 [tw tl]] & Hk & H).
+    destruct (kill_items_spec _ _ _ _ _ Hk Hb) as (Hb1 & Htw & Htl & Htw0 & Htwp & _).
+    destruct (mint_wlp s1 tw kf lf) as [s2 n] eqn:Hm2.
+    destruct (mint_wfm s2 u farm f' F' 1 n tw) as [s3 m3] eqn:Hm3. injection H as Es Em Ea El. rewrite Hlaw in El. subst s'.
+    apply andb_prop in El. destruct El as [E1 E2]. apply Z.eqb_eq in E1. apply Z.eqb_eq in E2.
+    specialize (Htwp ltac:(congruence)). cbn [items_pp_total items_farm_total] in *.
+    destruct (mint_wlp_spec _ _ _ _ _ _ Hm2 Hb1 Htwp ltac:(lia)) as (Hb2 & _).
+    refine (proj1 (mint_wfm_spec _ _ _ _ _ _ _ _ _ _ Hm3 Hb2 _ _)); lia.
+Qed.
+
+(** ---- endpoints *)
+Ltac chk H := match type of H with (if ?c then _ else _) = _ => let E := fresh "C" in destruct c eqn:E; [|discriminate] end.
+Ltac mon H x Hx := apply bind_ok in H; destruct H as (x & Hx & H).
+
+Lemma ep_add_liq_backed s u pid p1 p2 extra e s' x : ep_add_liq s u pid p1 p2 extra e = Ok (s', x) ->
+  x_law x = true -> Backed s -> Backed s'.
+Proof.
+  unfold ep_add_liq. intros H Hlaw Hb. chk H. chk H. chk H. chk H.
+  destruct (v_pair e) as [[lp used1] used2].
+  mon H left1 Hl1. mon H left2 Hl2.
+  destruct extra as [|p0 t].
+  - destruct (mint_wlp_user s u lp _ _) as [s1 n] eqn:Hm. injection H as Es Ex. subst s' x. simpl in Hlaw.
+    apply andb_prop in Hlaw. destruct Hlaw as [L1 L2]. apply Z.ltb_lt in L1. apply Z.leb_le in L2.
+    exact (proj1 (mint_wlp_user_spec _ _ _ _ _ _ _ Hm Hb L1 L2)).
+  - mon H r Hr. destruct r as [s1 [ta tl]]. mon H r3 Hr3.
+    destruct (v_fact e) as [kf lf].
+    destruct (mint_wlp_user s1 u (lp + ta) kf lf) as [s2 n] eqn:Hm. injection H as Es Ex. subst s' x. simpl in Hlaw.
+    apply andb_prop in Hlaw. destruct Hlaw as [Hlaw L3]. apply andb_prop in Hlaw. destruct Hlaw as [L1 L2].
+    apply Z.ltb_lt in L1. apply Z.leb_le in L2. apply Z.eqb_eq in L3.
+    destruct (take_wlp_list_spec _ _ _ _ _ _ Hr Hb) as (Hb1 & Hta & Htl & _).
+    refine (proj1 (mint_wlp_user_spec _ _ _ _ _ _ _ Hm Hb1 _ _)); lia.
+Qed.
+
+Lemma ep_remove_liq_backed s u pid p e s' x : ep_remove_liq s u pid p e = Ok (s', x) -> Backed s -> Backed s'.
+Proof.
+  unfold ep_remove_liq. intros H Hb. chk H. chk H. mon H r Hr. destruct r as [s1 [k lp]]. chk H.
+  destruct (v_pair e) as [[z rb] ro].
+  destruct (take_wlp_user_spec _ _ _ _ _ _ _ Hr Hb) as (Hb1 & _).
+  destruct (lp <? rb).
+  - injection H as Es _. subst. assumption.
+  - mon H en Hen. injection H as Es _. subst. assumption.
+Qed.
+
+Lemma ep_claim_backed s u farm p e s' x : ep_claim s u farm p e = Ok (s', x) -> x_law x = true -> Backed s -> Backed s'.
+Proof.
+  unfold ep_claim. intros H Hlaw Hb. chk H. chk H. mon H r Hr. destruct r as [s1 [w pp]]. chk H. chk H.
+  destruct (v_farm e) as [f F]. destruct (v_rew e) as [rk ra].
+  destruct (mint_wfm s1 u farm f F (wf_kind w) (wf_pn w) pp) as [s2 m] eqn:Hm. injection H as Es Ex. subst s' x.
+  simpl in Hlaw. apply Z.eqb_eq in Hlaw.
+  destruct (take_wfm_spec _ _ _ _ _ _ _ Hr Hb) as (Hb1 & Ha & Hpp & _).
+  refine (proj1 (mint_wfm_spec _ _ _ _ _ _ _ _ _ _ Hm Hb1 _ _)); lia.
+Qed.
+
+Lemma ep_merge_wlp_backed s u ps e s' x : ep_merge_wlp s u ps e = Ok (s', x) -> x_law x = true -> Backed s -> Backed s'.
+Proof.
+  unfold ep_merge_wlp. intros H Hlaw Hb. chk H. mon H r Hr. destruct r as [s1 [ta tl]]. chk H.
+  destruct (v_fact e) as [kf lf].
+  destruct (mint_wlp_user s1 u ta kf lf) as [s2 n] eqn:Hm. injection H as Es Ex. subst s' x. simpl in Hlaw. apply Z.eqb_eq in Hlaw.
+  destruct (take_wlp_list_spec _ _ _ _ _ _ Hr Hb) as (Hb1 & Hta & Htl & Hpos & _).
+  assert (ps <> []). { intros ->. simpl in C. unfold PROXY_MIN_MERGE_PAYMENTS in C. discriminate. }
+  refine (proj1 (mint_wlp_user_spec _ _ _ _ _ _ _ Hm Hb1 _ _)); [auto | lia].
+Qed.
+
+Lemma ep_merge_wfm_backed s u farm ps e s' x : ep_merge_wfm s u farm ps e = Ok (s', x) -> x_law x = true -> Backed s -> Backed s'.
+Proof.
+  unfold ep_merge_wfm. intros H Hlaw Hb. chk H. chk H. mon H r Hr. destruct r as [s1 its].
+  mon H r2 Hr2. destruct r2 as [s2 [[m amt] law]]. destruct (v_rew e) as [rk ra].
+  injection H as Es Ex. subst s' x. simpl in Hlaw. apply andb_prop in Hlaw. destruct Hlaw as [L1 L2]. apply Z.leb_le in L2.
+  destruct (take_wfm_list_spec _ _ _ _ _ Hr Hb) as (Hb1 & Hok & _).
+  apply backed_locked_in; [|assumption]. eapply merge_items_spec; eauto.
+Qed.
+
+Lemma ep_inc_lp_backed s u p e s' x : ep_inc_lp s u p e = Ok (s', x) -> x_law x = true -> Backed s -> Backed s'.
+Proof.
+  unfold ep_inc_lp. intros H Hlaw Hb. chk H. mon H r Hr. destruct r as [s1 [k lp]]. chk H.
+  destruct (v_fact e) as [kf lf].
+  destruct (mint_wlp_user s1 u (p_amt p) kf lf) as [s2 n] eqn:Hm. injection H as Es Ex. subst s' x. simpl in Hlaw. apply Z.eqb_eq in Hlaw.
+  destruct (take_wlp_user_spec _ _ _ _ _ _ _ Hr Hb) as (Hb1 & Ha & Hlp & _).
+  refine (proj1 (mint_wlp_user_spec _ _ _ _ _ _ _ Hm Hb1 _ _)); lia.
+Qed.
+
+Lemma ep_inc_fm_backed s u p e s' x : ep_inc_fm s u p e = Ok (s', x) -> x_law x = true -> Backed s -> Backed s'.
+Proof.
+  unfold ep_inc_fm. intros H Hlaw Hb. chk H. mon H r Hr. destruct r as [s1 [w pp]].
+  destruct (v_fact e) as [kf lf].
+  destruct (take_wfm_spec _ _ _ _ _ _ _ Hr Hb) as (Hb1 & Ha & Hpp & _).
+  destruct (wf_kind w =? 0).
+  - chk H. destruct (mint_wfm s1 u (wf_farm w) (wf_f w) (p_amt p) 0 kf lf) as [s2 m] eqn:Hm.
+    injection H as Es Ex. subst s' x. simpl in Hlaw. apply Z.eqb_eq in Hlaw.
+    refine (proj1 (mint_wfm_spec _ _ _ _ _ _ _ _ _ _ Hm Hb1 _ _)); lia.
+  - mon H r2 Hr2. destruct r2 as [s2 [k lq]]. chk H.
+    destruct (mint_wlp s2 pp kf lf) as [s3 n] eqn:Hm3.
+    destruct (mint_wfm s3 u (wf_farm w) (wf_f w) (p_amt p) 1 n pp) as [s4 m] eqn:Hm4.
+    injection H as Es Ex. subst s' x. simpl in Hlaw. apply Z.eqb_eq in Hlaw.
+    destruct (release_wlp_spec _ _ _ _ _ _ Hr2 Hb1) as (Hb2 & Hpp0 & Hlq & _).
+    destruct (mint_wlp_spec _ _ _ _ _ _ Hm3 Hb2 ltac:(lia) ltac:(lia)) as (Hb3 & _).
+    refine (proj1 (mint_wfm_spec _ _ _ _ _ _ _ _ _ _ Hm4 Hb3 _ _)); lia.
+Qed.
+
+Lemma ep_enter_farm_backed s u farm p extra e s' x : ep_enter_farm s u farm p extra e = Ok (s', x) ->
+  x_law x = true -> Backed s -> Backed s'.
+Proof.
+  unfold ep_enter_farm. intros H Hlaw Hb. chk H. chk H. apply Z.ltb_lt in C0.
+  mon H r0 Hr0. destruct r0 as [[s1 kind] minted]. chk H.
+  destruct (v_farm e) as [f F]. destruct (v_rew e) as [rk ra].
+  assert (Hb1 : Backed s1 /\ s_wfm s1 = s_wfm s).
+  { destruct (p_tok p =? TK_LOCKED).
+    - chk Hr0. injection Hr0 as -> _ _. auto.
+    - destruct (p_tok p =? TK_WLP); [|discriminate].
+      destruct (getn (s_wlp s) (p_non p)) as [w|]; [|discriminate].
+      mon Hr0 h Hh. apply bal_sub_ok in Hh. destruct Hh as [Hge ->].
+      mon Hr0 z Hz. mon Hr0 lp Hl. apply sub_chk_ok in Hl. destruct Hl as [Hle ->]. chk Hr0.
+      injection Hr0 as <- _ _. split; [|reflexivity]. apply backed_hlp_lp; auto. destruct Hb. lia. }
+  destruct Hb1 as [Hb1 Ewf].
+  destruct extra as [|p0 t].
+  - destruct (mint_wfm s1 u farm f F kind (p_non p) (p_amt p)) as [s2 m] eqn:Hm.
+    injection H as Es Ex. subst s' x. simpl in Hlaw. apply Z.eqb_eq in Hlaw.
+    refine (proj1 (mint_wfm_spec _ _ _ _ _ _ _ _ _ _ Hm Hb1 _ _)); lia.
+  - mon H r Hr. destruct r as [s2 its]. mon H z Hz. mon H r2 Hr2. destruct r2 as [s5 [[m amt] law]].
+    injection H as Es Ex. subst s' x. simpl in Hlaw. apply andb_prop in Hlaw. destruct Hlaw as [L1 L2]. apply Z.eqb_eq in L1.
+    destruct (take_wfm_list_spec _ _ _ _ _ Hr Hb1) as (Hb2 & Hok & _).
+    eapply merge_items_spec; eauto. constructor; auto. unfold item_ok, mk_item. split; lia.
+Qed.
+
+Lemma ep_exit_farm_backed s u farm p e s' x : ep_exit_farm s u farm p e = Ok (s', x) -> Backed s -> Backed s'.
+Proof.
+  unfold ep_exit_farm. intros H Hb. chk H. chk H. mon H r Hr. destruct r as [s1 [w pp]]. chk H. chk H.
+  destruct (v_rew e) as [rk ra]. chk H. apply Z.leb_le in C3.
+  destruct (take_wfm_spec _ _ _ _ _ _ _ Hr Hb) as (Hb1 & Ha & Hpp & _ & Hwf & _). subst pp.
+  set (F := snd (v_farm e)) in *.
+  destruct (F =? p_amt p) eqn:EF.
+  - apply Z.eqb_eq in EF. destruct (wf_kind w =? 0).
+    + injection H as Es _. subst. assumption.
+    + injection H as Es _. subst s'. unfold bal_add. apply backed_hlp_lp; auto. destruct Hb1. lia.
+  - apply Z.eqb_neq in EF. mon H rem Hrem. apply sub_chk_ok in Hrem. destruct Hrem as [Hle ->].
+    destruct (wf_kind w =? 0).
+    + mon H en Hen. injection H as Es _. subst. assumption.
+    + destruct (getn (s_wlp s1) (wf_pn w)) as [wl|] eqn:Hwl; [|discriminate].
+      mon H lnew Hln. mon H r2 Hr2. destruct r2 as [s2 [k lold]]. mon H extra Hex. mon H en Hen.
+      destruct (mint_wlp (upd_lp s2 (s_lp s2 + F)) (p_amt p - (p_amt p - F)) k lnew) as [s4 n] eqn:Hm.
+      injection H as Es _. subst s'.
+      destruct (kill_wlp_spec _ _ _ _ _ _ Hr2 Hb1) as (Hb2 & _ & Hlo & E1 & E2 & _).
+      pose proof (Forall_getn _ _ _ _ (bk_wlp _ Hb1) Hwl) as (HT & HL & _).
+      unfold part_wlp in Hln. destruct (rule3_pos _ _ _ _ Hln HT HL) as (Hlnp & Hrem & _).
+      assert (Hb3 : Backed (upd_lp s2 (s_lp s2 + F))) by (apply backed_lp_add; auto; lia).
+      destruct (mint_wlp_spec _ _ _ _ _ _ Hm Hb3 ltac:(lia) ltac:(lia)) as (Hb4 & _ & E3 & E4 & _).
+      unfold bal_add. apply backed_hlp_xfer_up; auto.
+      destruct Hb2 as [B1 _ _ _ _ _ _]. rewrite E4, E3. simpl. lia.
+Qed.
+
+Lemma ep_xfer_wlp_backed s a b n x s' y : ep_xfer_wlp s a b n x = Ok (s', y) -> Backed s -> Backed s'.
+Proof.
+  unfold ep_xfer_wlp. intros H Hb. chk H. apply Z.ltb_lt in C. mon H h Hh. apply bal_sub_ok in Hh. destruct Hh as [Hge ->].
+  injection H as Es _. subst s'.
+  assert (Hb1 : Backed (upd_hlp s (aset (s_hlp s) (hkey n a) (aget (s_hlp s) (hkey n a) - x)))) by (apply backed_hlp_xfer; auto; lia).
+  change (aset (s_hlp s) (hkey n a) (aget (s_hlp s) (hkey n a) - x)) with (s_hlp (upd_hlp s (aset (s_hlp s) (hkey n a) (aget (s_hlp s) (hkey n a) - x)))).
+  set (s1 := upd_hlp s (aset (s_hlp s) (hkey n a) (aget (s_hlp s) (hkey n a) - x))) in *.
+  assert (E : upd_hlp s (bal_add (s_hlp s1) (hkey n b) x) = upd_hlp s1 (aset (s_hlp s1) (hkey n b) (aget (s_hlp s1) (hkey n b) + x))) by reflexivity.
+  rewrite E. apply backed_hlp_xfer_up; auto.
+  destruct Hb as [B1 _ _ _ _ _ B7]. unfold s1. simpl. rewrite asum_aset by assumption. lia.
+Qed.
+
+Lemma ep_xfer_wfm_backed s a b n x s' y : ep_xfer_wfm s a b n x = Ok (s', y) -> Backed s -> Backed s'.
+Proof.
+  unfold ep_xfer_wfm. intros H Hb. chk H. mon H h Hh. injection H as Es _. subst s'.
+  destruct Hb as [B1 B2 B3 B4 B5 B6 B7]. constructor; simpl; auto.
+Qed.
+
+Theorem step_backed s o s' x : step s o = Ok (s', x) -> x_law x = true -> Backed s -> Backed s'.
+Proof.
+  destruct o; simpl; intros H Hlaw Hb.
+  - eapply ep_add_liq_backed; eauto.
+  - eapply ep_remove_liq_backed; eauto.
+  - eapply ep_enter_farm_backed; eauto.
+  - eapply ep_exit_farm_backed; eauto.
+  - eapply ep_claim_backed; eauto.
+  - eapply ep_merge_wlp_backed; eauto.
+  - eapply ep_merge_wfm_backed; eauto.
+  - eapply ep_inc_lp_backed; eauto.
+  - eapply ep_inc_fm_backed; eauto.
+  - chk H. chk H. injection H as Es _. subst s'. destruct Hb as [B1 B2 B3 B4 B5 B6 B7]. constructor; simpl; auto.
+  - chk H. chk H. chk H. injection H as Es _. subst s'. destruct Hb as [B1 B2 B3 B4 B5 B6 B7].
+    destruct (farm =? 0); constructor; simpl; auto.
+  - eapply ep_xfer_wlp_backed; eauto.
+  - eapply ep_xfer_wfm_backed; eauto.
+Qed.
+
+(** states reachable when every nested response obeys the interface laws *)
+Inductive reach : state -> Prop :=
+| reach_init : reach init_state
+| reach_step s o s' x : reach s -> step s o = Ok (s', x) -> x_law x = true -> reach s'.
+
+Theorem reach_backed s : reach s -> Backed s.
+Proof. induction 1; [apply backed_init | eapply step_backed; eauto]. Qed.
+
+Lemma lawful_reach ops : forall s, reach s -> lawful s ops = true -> reach (run s ops).
+Proof.
+  induction ops as [|o t IH]; intros s Hr Hl; simpl in *; [assumption|].
+  unfold step_total. destruct (step s o) as [[s' x]|] eqn:E.
+  - apply andb_prop in Hl. destruct Hl as [L1 L2]. apply IH; auto. econstructor; eauto.
+  - apply IH; auto.
+Qed.
+
+Theorem run_backed ops : lawful init_state ops = true -> Backed (run init_state ops).
+Proof. intros H. apply reach_backed. apply lawful_reach; [constructor | assumption]. Qed.
+
+(** per-position reading of the invariant: what a position can still release is in the proxy *)
+Lemma sumf_nonneg {A} (g : A -> Z) l : (forall y, In y l -> 0 <= g y) -> 0 <= sumf g l.
+Proof. induction l; simpl; intros H; [lia|]. pose proof (H a (or_introl eq_refl)). assert (0 <= sumf g l) by (apply IHl; intros; apply H; right; assumption). lia. Qed.
+
+Theorem backed_wlp_position s n w : Backed s -> getn (s_wlp s) n = Some w ->
+  wl_L w * wl_live w / wl_T w <= aget (s_locked s) (wl_k w) /\ wl_dead w <= aget (s_pwlp s) n.
+Proof.
+  intros Hb Hw. destruct Hb as [B1 B2 B3 B4 B5 B6 B7].
+  assert (Hwl : forall k y, In y (s_wlp s) -> 0 <= wl_need k y).
+  { intros k y Hy. rewrite Forall_forall in B5. destruct (B5 y Hy) as (HT & HL & Hlv & _). unfold wl_need.
+    destruct (wl_k y =? k); [|lia]. apply div_nonneg; nia. }
+  assert (Hwf : forall (g : wfm -> Z) , (forall y, g y = 0 \/ g y = wf_sup y) -> 0 <= sumf g (s_wfm s)).
+  { intros g Hg. apply sumf_nonneg. intros y Hy. rewrite Forall_forall in B6. destruct (B6 y Hy) as (_ & _ & Hs). destruct (Hg y); lia. }
+  split.
+  - specialize (B4 (wl_k w)).
+    assert (wl_need (wl_k w) w <= sumf (wl_need (wl_k w)) (s_wlp s)).
+    { apply getn_some in Hw. destruct Hw as [_ Hw]. revert Hw Hwl. generalize (Z.to_nat (n - 1)). generalize (s_wlp s).
+      induction l as [|h t IH]; intros [|i] H Hnn; simpl in *; try discriminate.
+      - inversion H; subst. assert (0 <= sumf (wl_need (wl_k w)) t) by (apply sumf_nonneg; intros; apply Hnn; auto). lia.
+      - assert (0 <= wl_need (wl_k w) h) by (apply Hnn; auto). specialize (IH _ H ltac:(intros; apply Hnn; auto)). lia. }
+    assert (0 <= sumf (wf_need_locked (wl_k w)) (s_wfm s)).
+    { apply Hwf. intros y. unfold wf_need_locked. destruct ((wf_kind y =? 0) && (wf_pn y =? wl_k w)); auto. }
+    unfold wl_need in H at 1. rewrite Z.eqb_refl in H. lia.
+  - specialize (B3 n). unfold dead_in in B3. rewrite Hw in B3.
+    assert (0 <= sumf (wf_need_wlp n) (s_wfm s)).
+    { apply Hwf. intros y. unfold wf_need_wlp. destruct (negb (wf_kind y =? 0) && (wf_pn y =? n)); auto. }
+    lia.
+Qed.
+
+Theorem backed_wfm_position s m w : Backed s -> getn (s_wfm s) m = Some w ->
+  wf_P w = wf_T w /\
+  wf_sup w <= aget (s_farm s) (fkey (wf_f w) (wf_farm w)) /\
+  (wf_kind w = 0 -> wf_sup w <= aget (s_locked s) (wf_pn w)) /\
+  (wf_kind w <> 0 -> wf_sup w <= aget (s_pwlp s) (wf_pn w)).
+Proof.
+  intros Hb Hw. pose proof (backed_wlp_position s) as Hpos. destruct Hb as [B1 B2 B3 B4 B5 B6 B7].
+  pose proof (Forall_getn _ _ _ _ B6 Hw) as (HT & HP & Hs).
+  assert (Hel : forall g : wfm -> Z, (forall y, In y (s_wfm s) -> 0 <= g y) -> g w <= sumf g (s_wfm s)).
+  { intros g. apply getn_some in Hw. destruct Hw as [_ Hw]. revert Hw. generalize (Z.to_nat (m - 1)). generalize (s_wfm s).
+    induction l as [|h t IH]; intros [|i] H Hnn; simpl in *; try discriminate.
+    - inversion H; subst. assert (0 <= sumf g t) by (apply sumf_nonneg; intros; apply Hnn; auto). lia.
+    - assert (0 <= g h) by (apply Hnn; auto). specialize (IH _ H ltac:(intros; apply Hnn; auto)). lia. }
+  assert (Hsup : forall y, In y (s_wfm s) -> 0 <= wf_sup y).
+  { intros y Hy. rewrite Forall_forall in B6. destruct (B6 y Hy) as (_ & _ & ?). assumption. }
+  assert (Hwl : forall k, 0 <= sumf (wl_need k) (s_wlp s)).
+  { intros k. apply sumf_nonneg. intros y Hy. rewrite Forall_forall in B5. destruct (B5 y Hy) as (? & ? & ? & _). unfold wl_need.
+    destruct (wl_k y =? k); [|lia]. apply div_nonneg; nia. }
+  split; [exact HP|]. split; [|split].
+  - specialize (B2 (fkey (wf_f w) (wf_farm w))).
+    pose proof (Hel (wf_need_farm (fkey (wf_f w) (wf_farm w)))
+      ltac:(intros y Hy; unfold wf_need_farm; destruct (fkey (wf_f y) (wf_farm y) =? _); [apply Hsup; auto | lia])) as H.
+    unfold wf_need_farm in H at 1. rewrite Z.eqb_refl in H. lia.
+  - intros Hk. specialize (B4 (wf_pn w)).
+    pose proof (Hel (wf_need_locked (wf_pn w))
+      ltac:(intros y Hy; unfold wf_need_locked; destruct ((wf_kind y =? 0) && (wf_pn y =? _)); [apply Hsup; auto | lia])) as H.
+    unfold wf_need_locked in H at 1. rewrite Hk in H. rewrite !Z.eqb_refl in H. simpl in H. specialize (Hwl (wf_pn w)). lia.
+  - intros Hk. specialize (B3 (wf_pn w)).
+    pose proof (Hel (wf_need_wlp (wf_pn w))
+      ltac:(intros y Hy; unfold wf_need_wlp; destruct (negb (wf_kind y =? 0) && (wf_pn y =? _)); [apply Hsup; auto | lia])) as H.
+    unfold wf_need_wlp in H at 1. apply Z.eqb_neq in Hk. rewrite Hk in H. rewrite Z.eqb_refl in H. simpl in H.
+    assert (0 <= dead_in (s_wlp s) (wf_pn w)).
+    { unfold dead_in. destruct (getn (s_wlp s) (wf_pn w)) eqn:E; [|lia]. destruct (Forall_getn _ _ _ _ B5 E) as (_ & _ & _ & ?). assumption. }
+    lia.
+Qed.
+
+(** ---------------------------------------------------------------- parts (C16_parts) *)
+Theorem parts_char T a full r : rule3 T a full = Ok r -> 0 < T -> 0 <= full ->
+  0 < r /\ r * T <= full * a < r * T + T /\ (a = T -> r = full).
+Proof.
+  intros H HT Hf. pose proof (rule3_floor _ _ _ _ H HT) as Hr. pose proof (rule3_ok _ _ _ _ H) as [Hp Hc].
+  split; [exact Hp|]. split.
+  - subst r. split; [apply div_lo | apply div_hi]; assumption.
+  - intros ->. destruct Hc as [[_ ->]|[Hne _]]; [reflexivity | contradiction].
+Qed.
+
+Theorem parts_zero_aborts T a full : 0 < T -> 0 <= full -> 0 <= a -> full * a < T -> a <> T -> is_ok (rule3 T a full) = false.
+Proof.
+  intros HT Hf Ha Hlt Hne. unfold rule3. destruct (a =? T) eqn:E; [apply Z.eqb_eq in E; contradiction|].
+  unfold div_chk. destruct (T =? 0) eqn:E0; [reflexivity|]. simpl.
+  rewrite Z.div_small by nia. reflexivity.
+Qed.
+
+Fixpoint zsum (l : list Z) : Z := match l with [] => 0 | x :: t => x + zsum t end.
+
+(** any sequence of partial redemptions of one position releases at most the whole *)
+Theorem parts_sum T full : 0 < T -> 0 <= full -> forall amts rs,
+  Forall2 (fun a r => rule3 T a full = Ok r) amts rs -> zsum amts <= T -> zsum rs <= full.
+Proof.
+  intros HT Hf amts rs H Hs.
+  assert (Hk : zsum rs * T <= full * zsum amts).
+  { clear Hs. induction H as [|a r ta tr Har Ht IH]; simpl; [lia|].
+    destruct (rule3_pos _ _ _ _ Har HT Hf) as (_ & _ & Hb). nia. }
+  nia.
+Qed.
+
+(** ---------------------------------------------------------------- energy (C16_mint_burn, last clause) *)
+Lemma energy_update_char en amt unlock now en' : pe_update_after_unlock_any en amt unlock now = Ok en' ->
+  pe_amt en' = pe_amt en - amt * (unlock - now) /\ pe_tot en' = pe_tot en - amt /\ amt <= pe_tot en /\ pe_upd en' = pe_upd en.
+Proof.
+  unfold pe_update_after_unlock_any. intros H. apply bind_ok in H. destruct H as (t & Ht & H). inversion H; subst en'. clear H.
+  apply sub_chk_ok in Ht. simpl. destruct (unlock <? now) eqn:E.
+  - apply Z.ltb_lt in E. unfold pe_add in *. destruct (now <=? unlock) eqn:E2; [apply Z.leb_le in E2; lia|]. simpl in *. lia.
+  - apply Z.ltb_ge in E. unfold pe_subtract in *. destruct (unlock <=? now) eqn:E2; simpl in *.
+    + apply Z.leb_le in E2. assert (unlock = now) by lia. subst. lia.
+    + lia.
+Qed.
+
+Lemma burn_energy_char e amt r : burn_energy e amt = Ok r ->
+  (amt = 0 /\ r = None) \/
+  (amt <> 0 /\ exists en', r = Some en' /\
+     let en := pe_deplete (v_energy e) (v_now e) in
+     pe_amt en' = pe_amt en - amt * (v_unlock e - v_now e) /\ pe_tot en' = pe_tot en - amt).
+Proof.
+  unfold burn_energy. destruct (amt =? 0) eqn:E; intros H.
+  - apply Z.eqb_eq in E. inversion H. auto.
+  - apply Z.eqb_neq in E. right. split; [assumption|]. apply bind_ok in H. destruct H as (en' & Hen & H). inversion H; subst r.
+    exists en'. split; [reflexivity|]. destruct (energy_update_char _ _ _ _ _ Hen) as (A & B & _). auto.
+Qed.
+
+(** ---------------------------------------------------------------- removeLiquidityProxy (C16_locked, C16_mint_burn) *)
+Theorem remove_liq_char s u pid p e s' x : ep_remove_liq s u pid p e = Ok (s', x) -> Backed s ->
+  exists w lp, getn (s_wlp s) (p_non p) = Some w /\ part_wlp w (p_amt p) = Ok lp /\
+    let rb := snd (fst (v_pair e)) in let ro := snd (v_pair e) in
+    let burned := Z.max 0 (lp - rb) in
+    x_outs x = (if lp <? rb then [(TK_BASE, 0, rb - lp)] else []) ++
+               [(TK_LOCKED, wl_k w, Z.min rb lp)] ++ [(TK_OTHER, 0, ro)] /\
+    x_mint x = 0 /\ x_burn x = Z.min rb lp /\ x_lburn x = (if lp <? rb then (0, 0) else (wl_k w, burned)) /\
+    x_burn x + snd (x_lburn x) = lp /\
+    burn_energy e burned = Ok (x_energy x).
+Proof.
+  unfold ep_remove_liq. intros H Hb. chk H. chk H. mon H r Hr. destruct r as [s1 [k lp]]. chk H.
+  destruct (take_wlp_user_spec _ _ _ _ _ _ _ Hr Hb) as (_ & _ & _ & _ & w & Hw & Hk & Hp). subst k.
+  exists w, lp. split; [assumption|]. split; [assumption|].
+  destruct (v_pair e) as [[z rb] ro]. simpl. destruct (lp <? rb) eqn:E.
+  - apply Z.ltb_lt in E. injection H as _ Ex. subst x. simpl.
+    rewrite Z.min_r by lia. rewrite Z.max_l by lia. repeat split; auto; lia.
+  - apply Z.ltb_ge in E. mon H en Hen. injection H as _ Ex. subst x. simpl.
+    rewrite Z.min_l by lia. rewrite Z.max_r by lia. repeat split; auto; lia.
+Qed.
+
+(** ---------------------------------------------------------------- addLiquidityProxy *)
+Theorem add_liq_char s u pid p1 p2 e s' x : ep_add_liq s u pid p1 p2 [] e = Ok (s', x) -> Backed s -> x_law x = true ->
+  exists pl po used_l used_o,
+    ((p_tok p1 = TK_LOCKED /\ p_tok p2 <> TK_LOCKED /\ pl = p1 /\ po = p2 /\ used_l = snd (fst (v_pair e)) /\ used_o = snd (v_pair e)) \/
+     (p_tok p2 = TK_LOCKED /\ p_tok p1 <> TK_LOCKED /\ pl = p2 /\ po = p1 /\ used_l = snd (v_pair e) /\ used_o = snd (fst (v_pair e)))) /\
+    let lp := fst (fst (v_pair e)) in
+    let n := next_nonce (s_wlp s) in
+    0 <= used_l <= p_amt pl /\
+    x_mint x = p_amt pl /\ x_burn x = p_amt pl - used_l /\ x_lburn x = (0, 0) /\ x_energy x = None /\
+    x_outs x = [(TK_WLP, n, lp); (TK_LOCKED, p_non pl, p_amt pl - used_l); (TK_OTHER, 0, p_amt po - used_o)] /\
+    getn (s_wlp s') n = Some (mkWlp lp (p_non pl) used_l lp 0).
+Proof.
+  unfold ep_add_liq. intros H Hb Hlaw. chk H. chk H. chk H. chk H.
+  destruct (v_pair e) as [[lp used1] used2]. mon H left1 Hl1. mon H left2 Hl2.
+  apply sub_chk_ok in Hl1. destruct Hl1 as [Hu1 ->]. apply sub_chk_ok in Hl2. destruct Hl2 as [Hu2 ->].
+  destruct (mint_wlp_user s u lp _ _) as [s1 n] eqn:Hm. injection H as Es Ex. subst s' x. simpl in Hlaw.
+  apply andb_prop in Hlaw. destruct Hlaw as [L1 L2]. apply Z.ltb_lt in L1. apply Z.leb_le in L2.
+  destruct (mint_wlp_user_spec _ _ _ _ _ _ _ Hm Hb L1 L2) as (_ & Hn & Hg). subst n. simpl.
+  destruct (p_tok p1 =? TK_LOCKED) eqn:E1; destruct (p_tok p2 =? TK_LOCKED) eqn:E2; simpl in C0; try discriminate.
+  - apply Z.eqb_eq in E1. apply Z.eqb_neq in E2. exists p1, p2, used1, used2. split; [left; repeat split; auto|].
+    repeat split; auto; lia.
+  - apply Z.eqb_neq in E1. apply Z.eqb_eq in E2. exists p2, p1, used2, used1. split; [right; repeat split; auto|].
+    repeat split; auto; lia.
+Qed.
+
+(** round trip through the pool: what the proxy minted net on entry is what it burns (base asset or
+    locked tokens) when the whole position is removed *)
+Theorem add_remove_round_trip s u pid p1 p2 e1 s1 x1 e2 s2 x2 :
+  Backed s -> ep_add_liq s u pid p1 p2 [] e1 = Ok (s1, x1) -> x_law x1 = true ->
+  ep_remove_liq s1 u pid (TK_WLP, next_nonce (s_wlp s), fst (fst (v_pair e1))) e2 = Ok (s2, x2) ->
+  x_burn x2 + snd (x_lburn x2) = x_mint x1 - x_burn x1.
+Proof.
+  intros Hb Ha Hlaw Hr.
+  destruct (add_liq_char _ _ _ _ _ _ _ _ Ha Hb Hlaw) as (pl & po & ul & uo & _ & Hc). simpl in Hc.
+  destruct Hc as (Hul & Hm & Hbn & _ & _ & _ & Hg).
+  assert (Hb1 : Backed s1) by (eapply ep_add_liq_backed; eauto).
+  destruct (remove_liq_char _ _ _ _ _ _ _ Hr Hb1) as (w & lp & Hw & Hp & Hc). unfold p_non, p_amt in Hw, Hp. cbn [fst snd] in Hw, Hp. cbv zeta in Hc.
+  destruct Hc as (_ & _ & _ & _ & Hsum & _). rewrite Hg in Hw. inversion Hw; subst w. clear Hw.
+  unfold part_wlp in Hp. simpl in Hp. unfold rule3 in Hp. rewrite Z.eqb_refl in Hp. simpl in Hp.
+  destruct (0 <? ul); [|discriminate]. inversion Hp; subst lp. lia.
+Qed.
+
+(** ---------------------------------------------------------------- farms (C16_locked, C16_mint_burn) *)
+Theorem enter_farm_char s u farm p e s' x : ep_enter_farm s u farm p [] e = Ok (s', x) -> Backed s -> x_law x = true ->
+  let a := p_amt p in let m := next_nonce (s_wfm s) in
+  0 < a /\ snd (v_farm e) = a /\ x_burn x = 0 /\ x_lburn x = (0, 0) /\ x_energy x = None /\
+  x_outs x = [(TK_WFM, m, a); (TK_LOCKED, fst (v_rew e), snd (v_rew e))] /\
+  ((p_tok p = TK_LOCKED /\ farm = 0 /\ x_mint x = a /\
+    getn (s_wfm s') m = Some (mkWfm farm (fst (v_farm e)) a 0 (p_non p) a a)) \/
+   (p_tok p = TK_WLP /\ farm = 1 /\ x_mint x = 0 /\
+    getn (s_wfm s') m = Some (mkWfm farm (fst (v_farm e)) a 1 (p_non p) a a))).
+Proof.
+  unfold ep_enter_farm. intros H Hb Hlaw. chk H. chk H. apply Z.ltb_lt in C0.
+  mon H r0 Hr0. destruct r0 as [[s1 kind] minted]. chk H.
+  destruct (v_farm e) as [f F]. destruct (v_rew e) as [rk ra].
+  destruct (mint_wfm s1 u farm f F kind (p_non p) (p_amt p)) as [s2 m] eqn:Hm.
+  injection H as Es Ex. subst s' x. simpl in Hlaw. apply Z.eqb_eq in Hlaw. subst F. simpl.
+  assert (Hb1 : Backed s1 /\ s_wfm s1 = s_wfm s /\
+                ((p_tok p = TK_LOCKED /\ farm = 0 /\ kind = 0 /\ minted = p_amt p) \/
+                 (p_tok p = TK_WLP /\ farm = 1 /\ kind = 1 /\ minted = 0))).
+  { destruct (p_tok p =? TK_LOCKED) eqn:E1.
+    - chk Hr0. injection Hr0 as -> <- <-. apply Z.eqb_eq in E1. apply Z.eqb_eq in C2. split; [assumption|]. split; [reflexivity|]. left. auto.
+    - destruct (p_tok p =? TK_WLP) eqn:E2; [|discriminate].
+      destruct (getn (s_wlp s) (p_non p)) as [w|]; [|discriminate].
+      mon Hr0 h Hh. apply bal_sub_ok in Hh. destruct Hh as [Hge ->].
+      mon Hr0 z Hz. mon Hr0 lp Hl. apply sub_chk_ok in Hl. destruct Hl as [Hle ->]. chk Hr0.
+      injection Hr0 as <- <- <-. apply Z.eqb_eq in E2. apply Z.eqb_eq in C2.
+      split; [|split; [reflexivity | right; auto]]. apply backed_hlp_lp; auto. destruct Hb. lia. }
+  destruct Hb1 as (Hb1 & Ewf & Hcase).
+  destruct (mint_wfm_spec _ _ _ _ _ _ _ _ _ _ Hm Hb1 C0 eq_refl) as (_ & Hmn & Hg). rewrite Ewf in Hmn. subst m.
+  repeat split; auto.
+  destruct Hcase as [(A1 & A2 & A3 & A4)|(A1 & A2 & A3 & A4)]; subst kind minted; [left | right]; repeat split; auto.
+Qed.
+
+Theorem exit_farm_char s u farm p e s' x : ep_exit_farm s u farm p e = Ok (s', x) -> Backed s ->
+  exists w, getn (s_wfm s) (p_non p) = Some w /\ wf_farm w = farm /\ wf_P w = wf_T w /\
+    let a := p_amt p in let F := snd (v_farm e) in let pen := a - F in
+    0 < a /\ F <= a /\ x_mint x = 0 /\ x_burn x = (if farm =? 0 then F else 0) /\
+    (exists out, x_outs x = [out; (TK_LOCKED, fst (v_rew e), snd (v_rew e))] /\ p_amt out = a - pen /\
+       ((wf_kind w = 0 /\ out = (TK_LOCKED, wf_pn w, a - pen)) \/ (wf_kind w <> 0 /\ p_tok out = TK_WLP /\ (pen = 0 -> p_non out = wf_pn w)))) /\
+    (wf_kind w = 0 -> snd (x_lburn x) = pen /\ (pen <> 0 -> fst (x_lburn x) = wf_pn w) /\ burn_energy e pen = Ok (x_energy x)) /\
+    (wf_kind w <> 0 -> pen = 0 -> x_lburn x = (0, 0) /\ x_energy x = None) /\
+    (wf_kind w <> 0 -> pen <> 0 -> exists wl lold lnew,
+        getn (s_wlp s) (wf_pn w) = Some wl /\ part_wlp wl a = Ok lold /\ part_wlp wl (a - pen) = Ok lnew /\
+        x_lburn x = (wl_k wl, lold - lnew) /\ lnew <= lold /\ burn_energy e (lold - lnew) = Ok (x_energy x)).
+Proof.
+  unfold ep_exit_farm. intros H Hb. chk H. chk H. mon H r Hr. destruct r as [s1 [w pp]]. chk H. chk H.
+  destruct (v_rew e) as [rk ra]. chk H. apply Z.leb_le in C3. apply Z.eqb_eq in C1.
+  destruct (take_wfm_spec _ _ _ _ _ _ _ Hr Hb) as (Hb1 & Ha & Hpp & Hw & Hwf & _ & _ & Ewl). subst pp.
+  exists w. split; [assumption|]. split; [assumption|]. split; [apply Hwf|]. simpl.
+  set (F := snd (v_farm e)) in *. set (a := p_amt p) in *.
+  destruct (F =? a) eqn:EF.
+  - apply Z.eqb_eq in EF. assert (Hpen : a - F = 0) by lia.
+    destruct (wf_kind w =? 0) eqn:Ek.
+    + apply Z.eqb_eq in Ek. injection H as _ Ex. subst x. simpl. rewrite Hpen.
+      split; [exact Ha|]. split; [lia|]. split; [reflexivity|]. split; [reflexivity|].
+      split; [eexists; split; [reflexivity|]; split; [simpl; lia|]; left; split; [assumption|]; f_equal; lia|].
+      split; [intros _; split; [reflexivity|]; split; [intros Hc; contradiction | reflexivity]|].
+      split; [intros Hc; contradiction | intros Hc; contradiction].
+    + apply Z.eqb_neq in Ek. injection H as _ Ex. subst x. simpl. rewrite Hpen.
+      split; [exact Ha|]. split; [lia|]. split; [reflexivity|]. split; [reflexivity|].
+      split; [eexists; split; [reflexivity|]; split; [simpl; lia|]; right; split; [assumption|]; split; [reflexivity|]; intros _; reflexivity|].
+      split; [intros Hc; contradiction|].
+      split; [intros _ _; split; reflexivity | intros _ Hc; contradiction].
+  - apply Z.eqb_neq in EF. assert (Hpen : a - F <> 0) by lia.
+    mon H rem Hrem. apply sub_chk_ok in Hrem. destruct Hrem as [Hle ->].
+    destruct (wf_kind w =? 0) eqn:Ek.
+    + apply Z.eqb_eq in Ek. mon H en Hen. injection H as _ Ex. subst x. simpl.
+      split; [exact Ha|]. split; [lia|]. split; [reflexivity|]. split; [reflexivity|].
+      split; [eexists; split; [reflexivity|]; split; [reflexivity|]; left; split; [assumption | reflexivity]|].
+      split; [intros _; split; [reflexivity|]; split; [intros _; reflexivity | exact Hen]|].
+      split; [intros Hc; contradiction | intros Hc; contradiction].
+    + apply Z.eqb_neq in Ek.
+      destruct (getn (s_wlp s1) (wf_pn w)) as [wl|] eqn:Hwl; [|discriminate].
+      mon H lnew Hln. mon H r2 Hr2. destruct r2 as [s2 [k lold]]. mon H extra Hex. mon H en Hen.
+      destruct (mint_wlp (upd_lp s2 (s_lp s2 + F)) (a - (a - F)) k lnew) as [s4 n] eqn:Hm.
+      injection H as _ Ex. subst x. simpl.
+      destruct (kill_wlp_spec _ _ _ _ _ _ Hr2 Hb1) as (_ & _ & _ & _ & _ & wl' & Hwl' & Hk & Hlo).
+      rewrite Hwl in Hwl'. inversion Hwl'; subst wl'. clear Hwl'. subst k.
+      apply sub_chk_ok in Hex. destruct Hex as [Hle2 ->]. rewrite Ewl in Hwl.
+      split; [exact Ha|]. split; [lia|]. split; [reflexivity|]. split; [reflexivity|].
+      split; [eexists; split; [reflexivity|]; split; [reflexivity|]; right; split; [assumption|]; split; [reflexivity|]; intros Hc; contradiction|].
+      split; [intros Hc; contradiction|].
+      split; [intros _ Hc; contradiction|].
+      intros _ _. exists wl, lold, lnew. split; [assumption|]. split; [assumption|]. split; [assumption|].
+      split; [reflexivity|]. split; [assumption | exact Hen].
+Qed.
+
+(** round trip through the base-asset farm *)
+Theorem enter_exit_round_trip s u p e1 s1 x1 e2 s2 x2 :
+  Backed s -> p_tok p = TK_LOCKED -> ep_enter_farm s u 0 p [] e1 = Ok (s1, x1) -> x_law x1 = true ->
+  ep_exit_farm s1 u 0 (TK_WFM, next_nonce (s_wfm s), p_amt p) e2 = Ok (s2, x2) ->
+  x_burn x2 + snd (x_lburn x2) = x_mint x1 /\
+  exists rew, x_outs x2 = [(TK_LOCKED, p_non p, p_amt p - snd (x_lburn x2)); rew].
+Proof.
+  intros Hb Hp He Hlaw Hx.
+  destruct (enter_farm_char _ _ _ _ _ _ _ He Hb Hlaw) as (Ha & _ & _ & _ & _ & _ & Hc). cbv zeta in Hc.
+  destruct Hc as [(_ & _ & Hm & Hg)|(Hc & _)]; [|rewrite Hp in Hc; discriminate].
+  assert (Hb1 : Backed s1) by (eapply ep_enter_farm_backed; eauto).
+  destruct (exit_farm_char _ _ _ _ _ _ _ Hx Hb1) as (w & Hw & _ & _ & Hc). unfold p_non, p_amt in Hw. cbn [fst snd] in Hw.
+  fold (p_amt p) in Hw. rewrite Hg in Hw. inversion Hw; subst w. clear Hw. cbv zeta in Hc. simpl in Hc.
+  destruct Hc as (_ & HF & _ & Hb2 & (out & Ho & _ & Hout) & Hk0 & _).
+  destruct (Hk0 eq_refl) as (Hl & _). split; [lia|].
+  destruct Hout as [(_ & ->)|(Hne & _)]; [|contradiction]. rewrite Ho. rewrite Hl. eexists. reflexivity.
+Qed.
+
+(** ---------------------------------------------------------------- base asset leaves the proxy only as pool surplus *)
+Ltac brk H :=
+  repeat (first
+    [ discriminate H
+    | match type of H with
+      | (if ?c then _ else _) = Ok _ => destruct c eqn:?
+      | bind ?r _ = Ok _ => let x := fresh "r" in let Hx := fresh "Hr" in apply bind_ok in H; destruct H as (x & Hx & H)
+      | (let '(_, _) := ?t in _) = Ok _ => destruct t eqn:?
+      | match ?t with _ => _ end = Ok _ => destruct t eqn:?
+      end ]).
+
+Lemma merge_items_amt s u farm its e s' m amt law : merge_items s u farm its e = Ok (s', (m, amt, law)) -> True.
+Proof. trivial. Qed.
+
+Theorem base_only_surplus s o s' x pay : step s o = Ok (s', x) -> In pay (x_outs x) -> p_tok pay = TK_BASE ->
+  exists u pid p e lp w, o = RemoveLiq u pid p e /\ getn (s_wlp s) (p_non p) = Some w /\ part_wlp w (p_amt p) = Ok lp /\
+    lp < snd (fst (v_pair e)) /\ pay = (TK_BASE, 0, snd (fst (v_pair e)) - lp).
+Proof.
+  intros H Hin Hb. destruct o; simpl in H.
+  - unfold ep_add_liq in H. brk H; injection H as _ Ex; subst x; simpl in Hin;
+      repeat (destruct Hin as [Hin|Hin]; [subst pay; discriminate Hb|]); contradiction.
+  - unfold ep_remove_liq in H. chk H. chk H. mon H r Hr. destruct r as [s1 [k lp]]. chk H.
+    unfold take_wlp_user in Hr. mon Hr h Hh. mon Hr l0 Hl0. unfold release_wlp in Hr. simpl in Hr.
+    destruct (getn (s_wlp s) (p_non p)) as [w|] eqn:Hw; [|discriminate]. chk Hr. mon Hr lp0 Hlp. mon Hr live Hlv. mon Hr s2 Hs2.
+    injection Hr as _ Ek El. subst lp0 k.
+    destruct (v_pair e) as [[z rb] ro] eqn:Ev. destruct (lp <? rb) eqn:E.
+    + apply Z.ltb_lt in E. injection H as _ Ex. subst x. simpl in Hin.
+      destruct Hin as [Hin|[Hin|[Hin|[]]]]; subst pay; try discriminate Hb.
+      exists u, pairid, p, e, lp, w. rewrite Ev. simpl. repeat split; auto.
+    + mon H en Hen. injection H as _ Ex. subst x. simpl in Hin.
+      destruct Hin as [Hin|[Hin|[]]]; subst pay; discriminate Hb.
+  - unfold ep_enter_farm in H. brk H; injection H as _ Ex; subst x; simpl in Hin;
+      repeat (destruct Hin as [Hin|Hin]; [subst pay; discriminate Hb|]); contradiction.
+  - unfold ep_exit_farm in H. brk H; injection H as _ Ex; subst x; simpl in Hin;
+      repeat (destruct Hin as [Hin|Hin]; [subst pay; discriminate Hb|]); contradiction.
+  - unfold ep_claim in H. brk H; injection H as _ Ex; subst x; simpl in Hin;
+      repeat (destruct Hin as [Hin|Hin]; [subst pay; discriminate Hb|]); contradiction.
+  - unfold ep_merge_wlp in H. brk H; injection H as _ Ex; subst x; simpl in Hin;
+      repeat (destruct Hin as [Hin|Hin]; [subst pay; discriminate Hb|]); contradiction.
+  - unfold ep_merge_wfm in H. brk H; injection H as _ Ex; subst x; simpl in Hin;
+      repeat (destruct Hin as [Hin|Hin]; [subst pay; discriminate Hb|]); contradiction.
+  - unfold ep_inc_lp in H. brk H; injection H as _ Ex; subst x; simpl in Hin;
+      repeat (destruct Hin as [Hin|Hin]; [subst pay; discriminate Hb|]); contradiction.
+  - unfold ep_inc_fm in H. brk H; injection H as _ Ex; subst x; simpl in Hin;
+      repeat (destruct Hin as [Hin|Hin]; [subst pay; discriminate Hb|]); contradiction.
+  - brk H; injection H as _ Ex; subst x; simpl in Hin; contradiction.
+  - brk H; injection H as _ Ex; subst x; simpl in Hin; contradiction.
+  - unfold ep_xfer_wlp in H. brk H; injection H as _ Ex; subst x; simpl in Hin; contradiction.
+  - unfold ep_xfer_wfm in H. brk H; injection H as _ Ex; subst x; simpl in Hin; contradiction.
+Qed.
+
+(** ---------------------------------------------------------------- merging / extending keeps everything locked *)
+Theorem merge_wlp_char s u ps e s' x : ep_merge_wlp s u ps e = Ok (s', x) -> Backed s -> x_law x = true ->
+  let n := next_nonce (s_wlp s) in
+  x_outs x = [(TK_WLP, n, sum_amt ps)] /\ x_mint x = 0 /\ x_burn x = 0 /\ x_lburn x = (0, 0) /\ x_energy x = None /\
+  0 < sum_amt ps /\ 0 <= snd (v_fact e) /\
+  getn (s_wlp s') n = Some (mkWlp (sum_amt ps) (fst (v_fact e)) (snd (v_fact e)) (sum_amt ps) 0).
+Proof.
+  unfold ep_merge_wlp. intros H Hb Hlaw. chk H. mon H r Hr. destruct r as [s1 [ta tl]]. chk H.
+  destruct (v_fact e) as [kf lf].
+  destruct (mint_wlp_user s1 u ta kf lf) as [s2 n] eqn:Hm. injection H as Es Ex. subst s' x. simpl in Hlaw. apply Z.eqb_eq in Hlaw.
+  destruct (take_wlp_list_spec _ _ _ _ _ _ Hr Hb) as (Hb1 & Hta & Htl & Hpos & Hsum & _).
+  assert (ps <> []). { intros ->. simpl in C. unfold PROXY_MIN_MERGE_PAYMENTS in C. discriminate. }
+  specialize (Hpos H). subst lf.
+  destruct (mint_wlp_user_spec _ _ _ _ _ _ _ Hm Hb1 Hpos Htl) as (_ & Hn & Hg).
+  assert (Elen : next_nonce (s_wlp s1) = next_nonce (s_wlp s)).
+  { clear - Hr. revert s s1 ta tl Hr. induction ps as [|p t IH]; intros s s1 ta tl Hr; simpl in Hr.
+    - inversion Hr; reflexivity.
+    - destruct (p_tok p =? TK_WLP); [|discriminate]. mon Hr r1 Hr1. destruct r1 as [sa [ka la]].
+      mon Hr r2 Hr2. destruct r2 as [sb [tb lb]]. inversion Hr; subst. rewrite (IH _ _ _ _ Hr2).
+      unfold take_wlp_user in Hr1. mon Hr1 h Hh. mon Hr1 l0 Hl0. unfold release_wlp in Hr1. simpl in Hr1.
+      destruct (getn (s_wlp s) (p_non p)) as [w|] eqn:Hw; [|discriminate]. chk Hr1. mon Hr1 x1 Hx1. mon Hr1 x2 Hx2. mon Hr1 x3 Hx3.
+      inversion Hr1; subst. unfold locked_out in Hx3. mon Hx3 x4 Hx4. inversion Hx3; subst. simpl.
+      unfold next_nonce, setn. f_equal. f_equal. clear. generalize (Z.to_nat (p_non p - 1)). generalize (s_wlp s).
+      induction l; intros [|i]; simpl; auto. }
+  subst ta. simpl. rewrite <- Elen. rewrite <- Hn. repeat split; auto.
+Qed.
+
+(** with or without merging: what is minted on entry, net of the leftover burned, is the locked amount the pool used *)
+Theorem add_liq_mint_any s u pid p1 p2 extra e s' x : ep_add_liq s u pid p1 p2 extra e = Ok (s', x) ->
+  let used_l := if p_tok p1 =? TK_LOCKED then snd (fst (v_pair e)) else snd (v_pair e) in
+  let pl := if p_tok p1 =? TK_LOCKED then p1 else p2 in
+  p_tok pl = TK_LOCKED /\ x_mint x = p_amt pl /\ x_burn x = p_amt pl - used_l /\ used_l <= p_amt pl /\
+  x_lburn x = (0, 0) /\ x_energy x = None.
+Proof.
+  unfold ep_add_liq. intros H. chk H. chk H. chk H. chk H.
+  destruct (v_pair e) as [[lp used1] used2]. mon H left1 Hl1. mon H left2 Hl2.
+  apply sub_chk_ok in Hl1. destruct Hl1 as [Hu1 ->]. apply sub_chk_ok in Hl2. destruct Hl2 as [Hu2 ->]. simpl.
+  assert (Hx : x_mint x = p_amt (if p_tok p1 =? TK_LOCKED then p1 else p2) /\
+               x_burn x = (if p_tok p1 =? TK_LOCKED then p_amt p1 - used1 else p_amt p2 - used2) /\
+               x_lburn x = (0, 0) /\ x_energy x = None).
+  { destruct extra as [|p0 t].
+    - destruct (mint_wlp_user s u lp _ _) as [s1 n]. injection H as _ Ex. subst x. simpl. auto.
+    - mon H r Hr. destruct r as [s1 [ta tl]]. mon H r3 Hr3. destruct (v_fact e) as [kf lf].
+      destruct (mint_wlp_user s1 u (lp + ta) kf lf) as [s2 n]. injection H as _ Ex. subst x. simpl. auto. }
+  destruct Hx as (A & B & C' & D).
+  destruct (p_tok p1 =? TK_LOCKED) eqn:E1; destruct (p_tok p2 =? TK_LOCKED) eqn:E2; simpl in C0; try discriminate.
+  - apply Z.eqb_eq in E1. repeat split; auto.
+  - apply Z.eqb_eq in E2. repeat split; auto.
+Qed.
+
+Theorem enter_farm_mint_any s u farm p extra e s' x : ep_enter_farm s u farm p extra e = Ok (s', x) ->
+  x_mint x = (if p_tok p =? TK_LOCKED then p_amt p else 0) /\ x_burn x = 0 /\ x_lburn x = (0, 0) /\ x_energy x = None /\
+  (p_tok p = TK_LOCKED \/ p_tok p = TK_WLP).
+Proof.
+  unfold ep_enter_farm. intros H. chk H. chk H.
+  mon H r0 Hr0. destruct r0 as [[s1 kind] minted]. chk H.
+  destruct (v_farm e) as [f F]. destruct (v_rew e) as [rk ra].
+  assert (Hm : minted = (if p_tok p =? TK_LOCKED then p_amt p else 0) /\ (p_tok p = TK_LOCKED \/ p_tok p = TK_WLP)).
+  { destruct (p_tok p =? TK_LOCKED) eqn:E1.
+    - chk Hr0. injection Hr0 as _ _ <-. apply Z.eqb_eq in E1. auto.
+    - destruct (p_tok p =? TK_WLP) eqn:E2; [|discriminate]. apply Z.eqb_eq in E2.
+      destruct (getn (s_wlp s) (p_non p)) as [w|]; [|discriminate].
+      mon Hr0 h Hh. mon Hr0 z Hz. mon Hr0 lp Hl. chk Hr0. injection Hr0 as _ _ <-. auto. }
+  destruct Hm as [-> Hk].
+  destruct extra as [|p0 t].
+  - destruct (mint_wfm s1 u farm f F kind (p_non p) (p_amt p)) as [s2 m]. injection H as _ Ex. subst x. simpl. auto.
+  - mon H r Hr. destruct r as [s2 its]. mon H z Hz. mon H r2 Hr2. destruct r2 as [s5 [[m amt] law]].
+    injection H as _ Ex. subst x. simpl. auto.
+Qed.
+
+(** ---------------------------------------------------------------- example history (Props/C16.v, non-vacuity)
+    the first operations of a history executed on the real composed system by tools/sys_proxydex.py *)
+Definition ex_ops : list op := [
+  AddLiq 1 0 (2, 1, 1000000) (1, 0, 400000) [] (mkEnv 1 true (400000, 800000, 400000) (0, 0) (0, 0) (0, 0) (0, 0) (mkPEn 359000000000000000000 1 1000000000000000000) 0);
+  EnterFarm 1 1 (3, 1, 150000) [] (mkEnv 1 true (0, 0, 0) (1, 150000) (0, 0) (0, 0) (0, 0) (mkPEn 359000000000000000000 1 1000000000000000000) 0);
+  EnterFarm 1 0 (2, 1, 500000) [] (mkEnv 1 true (0, 0, 0) (1, 500000) (0, 0) (0, 0) (0, 0) (mkPEn 359000000000000000000 1 1000000000000000000) 0);
+  ExitFarm 1 1 (4, 1, 50000) (mkEnv 2 true (0, 0, 0) (0, 49500) (0, 0) (1, 15000) (0, 0) (mkPEn 358000000000005370000 2 1000000000000015000) 360);
+  ExitFarm 1 0 (4, 2, 100000) (mkEnv 2 true (0, 0, 0) (0, 99000) (0, 0) (1, 9000) (0, 0) (mkPEn 358000000000008234000 2 1000000000000023000) 360);
+  RemoveLiq 1 0 (3, 1, 50000) (mkEnv 2 true (0, 31883, 157142) (0, 0) (0, 0) (0, 0) (0, 0) (mkPEn 358000000000007876000 2 1000000000000022000) 360);
+  MergeWlp 1 [(3, 1, 10000); (3, 2, 5000)] (mkEnv 2 true (0, 0, 0) (0, 0) (0, 0) (0, 0) (1, 30000) (mkPEn 357999999999983490114 2 999999999999953883) 0)].
+
